@@ -267,4 +267,5 @@ def targets(ctx):
         Target("dense_reencodings", ev, poison=_poison_fn, strategy=dense(), quick=350, thorough=5000, time_quick=70),
         _seq.target("C02"),
         _wkt.target("C02"),
+        *__import__("vf.props._thr", fromlist=["target"]).target(ctx, ['parse:Names', 'parse_vs_from_dict', 'parse:Words']),
     ]
